@@ -158,7 +158,12 @@ DepCloseInstrs(c, m, oc) ==
   LET od == OpenedDeps(DepsOf(c, m))
       order == CloseG(c, 0, od)
       saw == IF c.propagate /\ oc \in ErrOutcomes THEN "exc" ELSE "none"
-  IN [j \in 1..Len(order) |-> I("dep_close", order[j].id, 0, saw, "go", NoG, "")]
+      (* a teardown that awaits (async generator / async context manager): suspended inside the finalisation until the   *)
+      (* scenario opens gate <<"depc", m, id>>; "dep_closed" marks the end of that dependency's finalisation             *)
+      one(d) == IF CloseSusp(d)
+                THEN <<I("dep_close", d.id, 0, saw, "gate", <<"depc", m, d.id>>, ""), I("dep_closed", d.id, 0, "", "go", NoG, "")>>
+                ELSE <<I("dep_close", d.id, 0, saw, "go", NoG, "")>>
+  IN FlattenSeq([j \in 1..Len(order) |-> one(order[j])])
 
 SaveFlags(oc) == IF oc = "ret" THEN 6 ELSE 29
 SaveCls(oc) == CASE oc = "ret" -> "none" [] oc = "cancel" -> "timeout" [] oc = "cerr" -> "cancel" [] oc = "falsy" -> "exc" [] OTHER -> oc
@@ -340,6 +345,8 @@ GateKeys == {key \in {<<h, m, i>> : h \in {"pre", "onerr", "post", "postsave"}, 
                  IsValid(cfg, key[2]) /\ HookMode(cfg, key[3], key[1]) = "gate"}
             \cup {<<"dep", m, cfg.deps[j].id>> : m \in {mm \in Msgs : DepsOf(cfg, mm) # <<>>},
                                                  j \in {jj \in DOMAIN cfg.deps : cfg.deps[jj].suspend /\ IsAsyncStyle(cfg.deps[jj].style)}}
+            \cup {<<"depc", m, cfg.deps[j].id>> : m \in {mm \in Msgs : DepsOf(cfg, mm) # <<>>},
+                                                  j \in {jj \in DOMAIN cfg.deps : CloseSusp(cfg.deps[jj]) /\ ~cfg.deps[jj].fail}}
             \cup {<<"save", m, 0>> : m \in {mm \in Msgs : cfg.bsusp /\ IsValid(cfg, mm)}}
             \cup {<<"ack", m, 0>> : m \in {mm \in Msgs : cfg.ackfut /\ cfg.ackable /\ IsValid(cfg, mm) /\ ~MsgC(cfg, mm).ackfail}}
 OpenGate(key) ==
